@@ -200,6 +200,21 @@ ADDED = {
 }
 
 
+# round 12 and the lock-level model
+ADDED12 = {
+    "C07": (" + TLC model checking of MwLock.tla (explicit RWMutex: refinement of Middleware.tla, lock discipline, deadlock freedom, termination under fairness) with the recorded gate sequences checked against its lock program",
+            " Round 12: MwLock.tla makes the RWMutex explicit (readers, writer, announced writers that keep new readers out) and lets the wrapped handler call back into its own "
+            "middleware; TLC checks that it REFINES Middleware.tla (PROPERTY MW!Spec), keeps no lock across validation / rendering / w.Header() / the handler, cannot deadlock and, "
+            "under weak fairness, that every started call returns; twins holdAcross (rejected by LockFreeOutside and, without it, by deadlock) and checkThenAct (rejected by the "
+            "refinement). TraceMiddleware checks every recorded call's gate sequence against the lock program of its method (drift report)."),
+    "C11": ("", " Round 12: method look-alikes (`options`, `Options`, `OPTION`, `OPTIONSS`, lower-case standard methods, CONNECT, TRACE ...) with preflight / actual / non-CORS header shapes in every block."),
+    "C12": ("", " Round 12: in-place edits replace origin-valued fields by an origin nothing allows, and the probe suites offer exactly that origin right after requests from allowed origins."),
+    "C13": ("", " Round 12: over-range ports at integer-width boundaries (2^16+1 ... 99999, 10^5, 2^17+80, 2^31-1, 2^32+80, 2^64+80)."),
+    "C16": ("", " Round 12: strict subsets of the allowed names padded with 1..16 empty list elements (end, start, between, own lines) in every block."),
+    "C19": ("", " Round 12: the second stage is not run once the first has established a verdict (an iterator that yields too much made it explode)."),
+}
+
+
 def main():
     props = [json.loads(l) for l in open(os.path.join(VERIF, "properties.jsonl"))]
     checks = []
@@ -210,6 +225,8 @@ def main():
             cat, tech, text, note, ref = CLAIMED[pid]
             if pid in ADDED:
                 tech, text = tech + ADDED[pid][0], text + ADDED[pid][1]
+            if pid in ADDED12:
+                tech, text = tech + ADDED12[pid][0], text + ADDED12[pid][1]
             checks.append({
                 "property_id": pid,
                 "quick_cmd": "bin/check %s quick" % pid,
